@@ -119,6 +119,18 @@ func Harness_C09_SupplyAndMappingFrame() {
 	}
 	nW1 := len(eventsOf(ctx, types.EventTypeInitiateTokenWithdrawal))
 	verifAssert("the L2 sequence advances once per recorded withdrawal", k.nextL2(ctx) == l2+uint64(nW1-nW))
+	// every recorded withdrawal — user-initiated or the refund of a failed deposit — is announced with the L1
+	// base denom of the denom mapping (which never changes once set, see above)
+	for _, ev := range eventsOf(ctx, types.EventTypeInitiateTokenWithdrawal)[nW:] {
+		dn, _ := attr(ev, types.AttributeKeyDenom)
+		mapped, merr := k.DenomPairs.Get(ctx, dn)
+		if merr == nil {
+			verifAssert("a recorded withdrawal is announced with the mapped L1 base denom", attrIs(ev, types.AttributeKeyBaseDenom, mapped))
+		} else {
+			verifAssert("only the refund of a first deposit precedes the mapping, and it names the deposit's base denom",
+				st.which == mFinalizeDeposit && attrIs(ev, types.AttributeKeyBaseDenom, st.deposit.BaseDenom))
+		}
+	}
 	switch {
 	case st.ok() && st.which == mWithdraw && st.withdraw.Amount.Denom == d:
 		verifAssert("withdrawal burns exactly the amount", sup1.Equal(sup0.Sub(st.withdraw.Amount.Amount)))
